@@ -12,7 +12,30 @@ def harness():
 
 
 # ------------------------------------------------------------------ layout generator
+def gen_two_path_layout(rng):
+    """one file reachable by two dotted paths: relative to a sibling's directory (where its package line may fit) and from the entry's
+    root (where it may not); single and wildcard imports in either order"""
+    p, q = rng.sample(["p", "q", "a", "b", "x"], 2)
+    h, mid = rng.sample(["H", "Mid", "Util", "A", "B"], 2)
+    decl_h = rng.choice([[q], [p, q], [p], None])
+    mods = [
+        {"path": "/w/%s/%s/%s.bloch" % (p, q, h), "pkg": decl_h, "dirpkg": [p, q], "name": h, "imports": [], "classes": ["K0"], "functions": ["m0"], "bad": False},
+        {"path": "/w/%s/%s.bloch" % (p, mid), "pkg": [p], "dirpkg": [p], "name": mid,
+         "imports": [rng.choice(["%s.%s" % (q, h), "%s.*" % q, "%s.%s.%s" % (p, q, h)])], "classes": ["K1"], "functions": ["m1"], "bad": False},
+    ]
+    if rng.random() < 0.4:
+        mods.append({"path": "/w/%s/%s/Other.bloch" % (p, q), "pkg": rng.choice([[p, q], [q]]), "dirpkg": [p, q], "name": "Other", "imports": [],
+                     "classes": ["K2"], "functions": ["m2"], "bad": False})
+    imps = ["%s.%s" % (p, mid), rng.choice(["%s.%s.*" % (p, q), "%s.%s.%s" % (p, q, h)])]
+    rng.shuffle(imps)
+    entry = {"path": "/w/main.bloch", "pkg": None, "dirpkg": [], "name": "main", "imports": imps, "classes": [], "functions": ["e0", "main"], "bad": False}
+    mods.append(entry)
+    return {"roots": ["/w"], "cwd": rng.choice(["/w", "/w/" + p]), "sps": [], "mods": mods, "entry": entry["path"], "dirs": ["/w"]}
+
+
 def gen_layout(rng, big=False):
+    if rng.random() < 0.2:
+        return gen_two_path_layout(rng)
     roots = ["/w", "/lib", "/alt"][: rng.randrange(1, 4)]
     cwd = rng.choice(roots + ["/w/sub"] if "/w" in roots else roots)
     sps = [r for r in roots[1:] if rng.random() < 0.7 and (r != cwd or rng.random() < 0.3)]
@@ -35,6 +58,8 @@ def gen_layout(rng, big=False):
             decl = rng.choice(pkgs)             # wrong package line
         elif u < 0.06:
             decl = None                         # missing package line
+        elif u < 0.16 and len(pkg) >= 2:
+            decl = pkg[1:]                      # fits the path relative to the parent package's directory, not the path from the root
         mods.append({"path": path, "pkg": decl, "dirpkg": pkg, "name": name, "imports": [], "classes": ["K%d" % i],
                      "functions": ["m%d" % i], "bad": rng.random() < 0.03})
     if not mods:
@@ -61,7 +86,13 @@ def gen_layout(rng, big=False):
             cands = mods[:mi] if (mi > 0 and rng.random() < 0.85) else mods[:-1]
             t = rng.choice(cands)
             u = rng.random()
-            if u < 0.2:
+            same_root = t["path"].split("/")[1] == m["path"].split("/")[1]
+            below = same_root and len(t["dirpkg"]) > len(m["dirpkg"]) and t["dirpkg"][:len(m["dirpkg"])] == m["dirpkg"]
+            if below and rng.random() < 0.5:
+                # the same file reached by its path relative to the importer's own directory
+                relpkg = t["dirpkg"][len(m["dirpkg"]):]
+                imp = ".".join(relpkg + [t["name"] if rng.random() < 0.7 else "*"])
+            elif u < 0.2:
                 imp = ".".join(t["dirpkg"] + ["*"]) if t["dirpkg"] else None
             elif u < 0.24:
                 imp = ".".join(t["dirpkg"] + ["Missing"])
